@@ -562,6 +562,38 @@ static void run_c17_life(void)
         }
     }
     ABT_OK(ABT_xstream_free(&xs));
+    if (plan_n(4) == 0) {
+        /* ranks are integers of any size: a large rank is granted, is refused a second time, does
+         * not alias the small rank it is congruent to modulo 2^16 or 2^8, and is reusable after
+         * the free; the next automatic rank is still the smallest unused one */
+        static const int bigs[] = { 255, 256, 65535, 65536, 65537, 70000, 1000000 };
+        int big = bigs[plan_n(7)], r = -1, num = -1;
+        ABT_xstream a, b, c = ABT_XSTREAM_NULL;
+        ABT_OK(ABT_xstream_create_with_rank(ABT_SCHED_NULL, big, &a));
+        ABT_OK(ABT_xstream_get_rank(a, &r));
+        SIM_CHECK(r == big, "rank:changed-behind-owner", "a stream created with rank %d reports rank %d", big, r);
+        int rc = ABT_xstream_create_with_rank(ABT_SCHED_NULL, big, &c);
+        SIM_CHECK(rc == ABT_ERR_INV_XSTREAM_RANK, "rank:duplicate", "a second stream with rank %d: ABT_xstream_create_with_rank returned %d", big, rc);
+        ABT_OK(ABT_xstream_create(ABT_SCHED_NULL, &b));
+        ABT_OK(ABT_xstream_get_rank(b, &r));
+        SIM_CHECK(r == 1, "rank:not-smallest-unused", "with ranks 0 and %d taken a new stream got rank %d", big, r);
+        int small = big > 65536 ? big & 65535 : big > 256 ? big & 255 : 2;
+        if (small < 2)
+            small = 2;
+        rc = ABT_xstream_set_rank(b, small);
+        SIM_CHECK(rc == ABT_SUCCESS, "rank:refused-although-free", "ABT_xstream_set_rank(%d) with ranks 0, 1 (its own) and %d taken returned %d", small, big, rc);
+        ABT_OK(ABT_xstream_get_num(&num));
+        SIM_CHECK(num == 3, "rank:num", "ABT_xstream_get_num = %d with 3 streams", num);
+        ABT_OK(ABT_xstream_join(a));
+        ABT_OK(ABT_xstream_free(&a));
+        ABT_OK(ABT_xstream_set_rank(b, big)); /* reusable after the free */
+        ABT_OK(ABT_xstream_get_rank(b, &r));
+        SIM_CHECK(r == big, "rank:changed-behind-owner", "ABT_xstream_set_rank(%d) succeeded but the stream reports rank %d", big, r);
+        ABT_OK(ABT_xstream_join(b));
+        ABT_OK(ABT_xstream_free(&b));
+        sim_count("c17.large_ranks", 1);
+        sim_note("big-rank%d ", big);
+    }
     /* replacing the main scheduler of the caller's own stream keeps the caller running */
     if (plan_bool()) {
         ABT_xstream self;
